@@ -20,7 +20,7 @@ BASE = {
     "no_commands": False, "second_file": False, "private_field_type": "u32", "crate_field": False,
     "cmd_rename_all": None, "param_serde_rename": None, "status_serde": True, "channel_name": "on_progress", "validator_range": None, "second_struct_field": "i32",
     "notice_min": 3, "notice_level": "i32", "notice_nested": "u8", "tm_targets": ("string", "string"),
-    "same_name_field_rename": False, "same_name_variant_rename": False, "no_events": False,
+    "same_name_field_rename": False, "same_name_variant_rename": False, "no_events": False, "second_emit_site": True,
 }
 
 # edit classes: name -> function(state) (toggles, so that sequences compose); "affects": None=always, "zod"=only visible in zod mode
@@ -77,6 +77,8 @@ EDITS = [
     ("delete-generated-file:index.ts", "delete:index.ts"),
     ("delete-generated-file:events.ts", "delete:events.ts"),
     ("remove-all-commands/restore", lambda s: s.update(no_commands=not s["no_commands"])),
+    # the event of `notify` is emitted a second time elsewhere with another payload type (the listener follows the first site)
+    ("add-remove-second-emit-site-of-the-same-event", lambda s: s.update(second_emit_site=not s["second_emit_site"])),
     # the last emit disappears: events.ts is no longer part of the output and index.ts must stop re-exporting it
     ("remove-all-events/restore", lambda s: s.update(no_events=not s["no_events"])),
     ("move-type-to-other-file", lambda s: s.update(second_file=not s["second_file"])),
@@ -125,6 +127,8 @@ def render(s):
         if s["cmd_extra"]:
             cmds += rg.command_src("extra_cmd", [("flag", "bool")], "Status")
     ev = "pub fn notify(app: AppHandle, payload: %s) {\n    %sapp.emit(\"%s\", payload).unwrap();\n}\n\n" % (s["event_payload"], "// " if s["no_events"] else "", s["event_name"])
+    if s["second_emit_site"] and not s["no_events"]:
+        ev += "pub fn notify_again(app: AppHandle, addr: Address) {\n    app.emit(\"%s\", addr).unwrap();\n}\n\n" % s["event_name"]
     # a struct (with validators and a nested type) that only an event payload reaches
     ev += rg.struct_src("NoticeMeta", [("code", s["notice_nested"])])
     ev += rg.struct_src("Notice", [("text", "String", ['#[validate(length(min = %d, max = 20, message = "notice length"))]' % s["notice_min"]]), ("level", s["notice_level"]), ("meta", "Vec<NoticeMeta>")],
